@@ -44,7 +44,22 @@ PY
 done
 git checkout --ours tools/props.py 2>/dev/null || true
 git checkout --ours MANIFEST.json 2>/dev/null || true
-if git status --short | grep -q '^UU harness/Cargo.toml'; then echo 'NOTE: harness/Cargo.toml conflicted, keeping ours; their dependency section was:'; git show FETCH_HEAD:harness/Cargo.toml | sed -n '/dependencies/,/profile/p'; git checkout --ours harness/Cargo.toml; fi
+if git status --short | grep -q '^UU harness/Cargo.toml'; then git checkout --ours harness/Cargo.toml; fi
+# add dependencies the workspace's harness has and ours lacks
+git show FETCH_HEAD:harness/Cargo.toml > /tmp/their_Cargo.toml 2>/dev/null && python3 - <<'PY'
+import re
+ours=open('/verif/harness/Cargo.toml').read(); theirs=open('/tmp/their_Cargo.toml').read()
+def deps(t):
+    m=re.search(r'\[dependencies\]\n(.*?)(\n\[|\Z)', t, re.S)
+    return dict((l.split('=')[0].strip(), l) for l in m.group(1).splitlines() if '=' in l and not l.startswith('<') and not l.startswith('>'))
+do, dt = deps(ours), deps(theirs)
+add=[dt[k] for k in dt if k not in do and k!='litep2p']
+if add:
+    ours=ours.replace('\n[profile.dev]', '\n'.join(['']+add)+'\n\n[profile.dev]',1) if False else ours
+    i=ours.index('[profile.dev]')
+    ours=ours[:i].rstrip('\n')+'\n'+'\n'.join(add)+'\n\n'+ours[i:]
+    open('/verif/harness/Cargo.toml','w').write(ours); print('added harness deps:', add)
+PY
 # the lock file is regenerated from /repo's lock (offline resolution adds the harness-only crates)
 cp /repo/Cargo.lock harness/Cargo.lock && (cd harness && cargo build --offline 2>&1 | tail -1)
 if grep -rIl '^<<<<<<< \|^>>>>>>> ' --exclude-dir=.git --exclude-dir=target --exclude-dir=work --exclude-dir=build . ; then echo 'conflict markers remain in the files above'; exit 1; fi
